@@ -20,7 +20,8 @@ def decHArg : Dec HArg := do
   let pvs ← listOf (do
     let n ← hexB
     let fl ← bits
-    pure ({ name := n, hide := fl.getD 0 false, hasHelp := fl.getD 1 false } : PV))
+    let w ← nat
+    pure ({ name := n, hide := fl.getD 0 false, hasHelp := fl.getD 1 false, w } : PV))
   let g := fun i => b.getD i false
   pure { id, short, long, valNames := vns, minVals := mn, maxVals := mx, takesValue := g 0, required := g 1, isCount := g 2,
          isAppend := g 3, requireEquals := g 4, hide := g 5, hideShortHelp := g 6, hideLongHelp := g 7, nextLineHelp := g 8,
